@@ -324,6 +324,7 @@ fn run_shard(pn: u32, tier: Tier, seed: u64, shard: usize, nshards: usize, out: 
                 st.kind = "bounded-exhaustive histories (every operation sequence of one length)";
                 let a = alphabet.len() as u64;
                 let total = a.pow(*len as u32);
+                let journal_all = std::env::var("VERIF_JOURNAL_ALL").map(|v| v == "1").unwrap_or(false);
                 let mut case = base.clone();
                 let mut idx = shard as u64;
                 let mut complete = true;
@@ -334,8 +335,9 @@ fn run_shard(pn: u32, tier: Tier, seed: u64, shard: usize, nshards: usize, out: 
                         case.ops.push(alphabet[(x % a) as usize]);
                         x /= a;
                     }
-                    // journal only now and then: a crash is re-found by replaying the neighbourhood
-                    if idx % 4096 < nshards as u64 {
+                    // journal only now and then; when a shard dies the driver runs it again with
+                    // VERIF_JOURNAL_ALL=1, which journals every history before it is executed
+                    if journal_all || idx % 4096 < nshards as u64 {
                         journal.write(&case);
                     }
                     let o = eval_case(&case, EvalOpts::default());
